@@ -59,15 +59,17 @@ ASSUME = [
     "stream data fields are single-line JSON; exact ties (timer and event in the same loop iteration) are not scripted",
 ]
 BASE = "http://h"
-CFG_NAMES = ["opt_space", "keep_id", "other_terminal", "enter_cancel", "reraise_cancel", "drop_late", "route_in_stream"]
-I_DROP_LATE, I_ROUTE_IN_STREAM = 5, 6
+CFG_NAMES = ["opt_space", "keep_id", "other_terminal", "enter_cancel", "reraise_cancel", "drop_late", "route_in_stream",
+             "answers_only"]
+I_DROP_LATE, I_ROUTE_IN_STREAM, I_ANSWERS_ONLY = 5, 6, 7
 HANG = 900.0     # virtual seconds after which a context exit that has not returned is a hang
 PATCH_OF = {"opt_space": "fixes/C12-sse-field-optional-space.patch", "keep_id": "fixes/C12-synth-error-keeps-request-id.patch",
             "other_terminal": "fixes/C12-other-status-always-terminal.patch",
             "enter_cancel": "fixes/C12-cancel-during-enter-cleans-up.patch",
             "reraise_cancel": "fixes/C12-exit-deadlock-swallowed-cancel.patch",
             "drop_late": "fixes/C12-6-late-answer-dropped.patch",
-            "route_in_stream": "fixes/C12-7-answer-routed-in-stream-order.patch"}
+            "route_in_stream": "fixes/C12-7-answer-routed-in-stream-order.patch",
+            "answers_only": "the repair ecb7629 (a server request bearing a pending id is not its answer)"}
 
 _orig_load = lib.load_findings
 
@@ -724,6 +726,9 @@ def req_cases(ctx):
         ans = res(rid, a_tok) if variant.get("ans", "res") == "res" else errres(rid, a_tok)
         a_abs = absmsg(ans)
         n1, n2 = notif(tok()), (srvreq(tok()) if variant.get("n2req") else notif(tok()))
+        if variant.get("n1same"):
+            # a request of the SERVER's own (ping) that bears the id of the client's request in flight: ids are per direction
+            n1 = {"jsonrpc": "2.0", "id": rid, "method": "ping", "params": {"k": tok()}}
         pre = [[variant["n1_at"], enc_event(n1).encode()]] if variant.get("n1_at") is not None else []
         ev_pre = [("sse", absmsg(n1))] if pre else []
         dp, de = variant.get("dp", 0.2), variant.get("de", 0.5)
@@ -822,9 +827,20 @@ def req_cases(ctx):
             # (a keep-alive connection dropped): a client that re-sends the POST has the request handled - and answered - twice
             plans.append((rid, "event-then-failure", {"n1_at": n1_at, "dp": 0.6, "de": 0.2, "outcome": ["exc", "disconnect"]}))
             plans.append((rid, "event-then-failure", {"n1_at": n1_at, "dp": 0.6, "de": 0.2, "outcome": ["status", 500, b"boom", "text/plain"]}))
+    for rid in REQ_IDS:
+        same = {"n1_at": 0.05, "n1same": True}
+        plans.append((rid, "200-body", dict(same)))
+        plans.append((rid, "200-body", {**same, "ans": "err"}))
+        plans.append((rid, "202-then-event", dict(same)))
+        plans.append((rid, "202-then-event", {**same, "follow": "same-chunk"}))
+        plans.append((rid, "event-then-202", {**same, "dp": 0.6, "de": 0.2}))
+        plans.append((rid, "202-silence", dict(same)))
+        plans.append((rid, "other-status", {**same, "code": 500, "body": b"boom", "ctype": "text/plain"}))
+        plans.append((rid, "exception", {**same, "exc": "connect"}))
     limit = ctx.budget(460, 100000)
     if len(plans) > limit:
-        must = [p for p in plans if (p[0] in ("r1", 7) and p[2].get("n1_at") is None) or "disconnect" in json.dumps(_jsonable(p[2]))]
+        must = [p for p in plans if (p[0] in ("r1", 7) and p[2].get("n1_at") is None) or "disconnect" in json.dumps(_jsonable(p[2]))
+                or p[2].get("n1same")]
         rest = [p for p in plans if p not in must]
         plans = must + rng.sample(rest, max(0, limit - len(must)))
     for rid, mode, variant in plans:
@@ -912,6 +928,8 @@ def check_requests(ctx, model, cfg):
                 continue
             # inside the property's environment, or (a single life) inside the full-strength one
             in_env = (bool(sok) or bool(sok_late)) if len(c["rids"]) == 1 else True
+            if isinstance(c["variant"], dict) and c["variant"].get("n1same"):
+                in_env = True        # a server request is a server message like any other, whatever id it bears
             judge.append((c, case, rid, [tuple(x) for x in impl], in_env))
         # unrelated traffic: complete, once, in order
         toks = {absmsg(u)[2] for u in c["unrelated"]}
@@ -933,7 +951,9 @@ def check_requests(ctx, model, cfg):
             continue
         n = sum(1 for (i, k, _t) in data if k[0] in (0, 1) and i == rid and type(i) is type(rid))
         stringified = [x for x in data if x[1][0] == 1 and isinstance(rid, int) and x[0] == str(rid)]
-        if "late-answer" in c["label"] and n == 2 and not cfg[I_DROP_LATE]:
+        if isinstance(c["variant"], dict) and c["variant"].get("n1same") and not cfg[I_ANSWERS_ONLY]:
+            klass = "sse-server-request-taken-for-the-answer"      # the member before ecb7629: its known failing input
+        elif "late-answer" in c["label"] and n == 2 and not cfg[I_DROP_LATE]:
             klass = "sse-late-answer-second-terminal"       # the member without C12-6: its known failing input
         elif n == 0 and stringified:
             klass = "sse-synth-error-id-stringified"
@@ -1104,7 +1124,14 @@ def detect_variant(ctx):
     o = session(to_session(c))
     toks = [x[1][2] for x in o["delivered"]]
     route_in_stream = toks == [42, 43]
-    return [opt_space, keep_id, other_terminal, enter_cancel, reraise, drop_late, route_in_stream]
+    # a ping of the server's own bearing the pending id arrives while the POST is in flight; the POST's 200 body is the answer
+    a = res("r1", 44)
+    ping = {"jsonrpc": "2.0", "id": "r1", "method": "ping", "params": {"k": 45}}
+    c = {"T": 1.0, "rids": ["r1"], "durs": [0.6],
+         "posts": [{"delay": 0.3, "outcome": ["status", 200, json.dumps(a).encode()], "events": [[0.1, enc_event(ping).encode()]]}]}
+    o = session(to_session(c))
+    answers_only = sum(1 for x in o["delivered"] if x[1][0] == "r1" and x[1][1][0] in (0, 1)) == 1
+    return [opt_space, keep_id, other_terminal, enter_cancel, reraise, drop_late, route_in_stream, answers_only]
 
 
 # --------------------------------------------------------------------------- #
@@ -1124,9 +1151,11 @@ def run(ctx):
     cfg = detect_variant(ctx)
     ctx.extra["code_variant"] = dict(zip(CFG_NAMES, cfg))
     ctx.extra["full_theorems_apply"] = all(cfg)
-    ctx.extra["model_member"] = ("cfg_patched" if all(cfg) else "cfg_head" if all(cfg[:5]) and not any(cfg[5:]) else
+    ctx.extra["model_member"] = ("cfg_patched" if all(cfg) else "cfg_before_answers_only" if all(cfg[:7]) and not cfg[7] else
+                                 "cfg_head" if all(cfg[:5]) and not any(cfg[5:]) else
                                  "cfg_orig" if not any(cfg) else "other")
-    refuted_by = {"drop_late": "C12_one_terminal_refuted / C12_in_order_refuted", "route_in_stream": "C12_in_order_refuted"}
+    refuted_by = {"drop_late": "C12_one_terminal_refuted / C12_in_order_refuted", "route_in_stream": "C12_in_order_refuted",
+                  "answers_only": "witness C12_server_request_witness"}
     for name, on in zip(CFG_NAMES, cfg):
         if not on:
             ctx.notes.append(f"the code under test behaves like the member without {PATCH_OF[name]}: the full-strength theorem needing "
@@ -1140,7 +1169,8 @@ def run(ctx):
     expected = {"opt_space": "sse-field-without-space-not-recognised", "keep_id": "sse-synth-error-id-stringified",
                 "other_terminal": "sse-other-status-no-terminal", "enter_cancel": "sse-cancel-during-enter-leaks",
                 "reraise_cancel": "sse-exit-hangs-after-stream-end", "drop_late": "sse-late-answer-second-terminal",
-                "route_in_stream": "sse-answer-overtaken-by-later-event"}
+                "route_in_stream": "sse-answer-overtaken-by-later-event",
+                "answers_only": "sse-server-request-taken-for-the-answer"}
     seen = {f["class"] for f in ctx.spec_fail}
     for name, on in zip(CFG_NAMES, cfg):
         if not on:
